@@ -147,6 +147,7 @@ class Style:
         self.implicit_word = 0.0   # probability of '.word a, b' -> 'a, b'
         self.comments = 0.0
         self.tabs = 0.0
+        self.escapes = 0.0         # probability of spelling a string character with an escape although it is not needed
         for k, v in kw.items():
             setattr(self, k, v)
 
@@ -255,7 +256,7 @@ def _bracket(inner, style, needed):
     return f"({inner})"
 
 
-def r_expr(e, style=PLAIN, ctx=None, parent_prec=99, side=None):
+def r_expr(e, style=PLAIN, ctx=None, parent_prec=99, side=None, at_start=True):
     """Render with only the brackets the reference precedence table requires, plus random redundant ones."""
     k = e[0]
     if k == "num":
@@ -278,15 +279,18 @@ def r_expr(e, style=PLAIN, ctx=None, parent_prec=99, side=None):
         if operand[0] == "bin":
             s_op = _bracket(r_expr(operand, style, ctx), style, True)
         else:
-            s_op = r_expr(operand, style, ctx, 2, "u")
+            s_op = r_expr(operand, style, ctx, 2, "u", at_start=True)
         if s_op[0] in "+-" and op in "+-":
             s_op = " " + s_op
         s = op + s_op
+        if not at_start:
+            # the assembler accepts prefix operators only at the start of an expression or bracket (a sign on a number aside)
+            return _bracket(s, style, True)
         return _maybe_redundant(s, style)
     elif k == "bin":
         p = PREC[e[1]]
-        ls = r_expr(e[2], style, ctx, p, "l")
-        rs = r_expr(e[3], style, ctx, p, "r")
+        ls = r_expr(e[2], style, ctx, p, "l", at_start=at_start)
+        rs = r_expr(e[3], style, ctx, p, "r", at_start=False)
         s = ls + style.sp(" ") + e[1] + style.sp(" ") + rs
         need = (p > parent_prec) or (p == parent_prec and side == "r")
         if need:
@@ -473,8 +477,15 @@ def r_string_chunks(chunks, quote, style):
             inner = r_expr(v, style)
             out.append("<" + inner + (" " if inner.endswith(">") else "") + ">")
         else:
-            body = "".join(r_char(c) if (c in "\n\r\t\\" or ord(c) < 0x20 or c == quote) else c for c in v)
-            out.append(quote + body + quote)
+            body = []
+            for c in v:
+                if c in "\n\r\t\\" or ord(c) < 0x20 or c == quote:
+                    body.append(r_char(c))
+                elif style.p(style.escapes) and ord(c) < 0x80:
+                    body.append(style.rnd.choice([f"\\x{ord(c):02x}", f"\\X{ord(c):02X}", ESC.get(c, c), "\\\n" + c]))
+                else:
+                    body.append(c)
+            out.append(quote + "".join(body) + quote)
     return style.sp(" ").join(out) if out else quote + quote
 
 
